@@ -11,6 +11,7 @@ out by `UnsafeMacaroon()` (documented unsafe) are outside the model; user callba
 (`callout`) are assumed not to re-enter the same bundle.
 -/
 import Macaroon.Lemmas.RWMutex
+import Macaroon.Lemmas.Atomic
 import Macaroon.Generated.BundleLocks
 
 namespace Macaroon.Props.C15
@@ -62,6 +63,65 @@ theorem bundle_all_return (progs : List (List Ev)) (h : ∀ p ∈ progs, IsCallS
     ∃ sched, finished (run (init progs) sched) = true :=
   flat_all_finish progs (fun p hp => callSequence_flat p (h p hp))
 
+/-! ### modifications take effect atomically -/
+
+/-- every modifying entry point reads the token list INSIDE the write section in which it then
+writes it (no check-then-act across two sections): the second obligation over the regenerated
+traces -/
+theorem bundle_entry_points_read_before_write : ∀ e ∈ bundleLocks, RBW e.trace = true := by decide
+
+theorem callSequence_rbw (p : List Ev) (h : IsCallSequence p) : RBW p = true := by
+  obtain ⟨es, hes, rfl⟩ := h
+  induction es with
+  | nil => rfl
+  | cons e es ih =>
+    simp only [List.flatMap_cons]
+    exact RBWFrom_append false _ _ (bundle_entry_points_read_before_write e (hes e (by simp)))
+      (ih (fun x hx => hes x (by simp [hx])))
+
+/-- while one goroutine is inside a modifying operation's critical section, no other goroutine is
+inside any operation's critical section - on the bundle or on a bundle derived from it by
+selection: readers see the token list before the modification or after it, never during -/
+theorem bundle_sections_exclusive (progs : List (List Ev)) (h : ∀ p ∈ progs, IsCallSequence p)
+    (sched : List Nat) (i j : Nat) (t u : Thread)
+    (hi : (run (init progs) sched).threads[i]? = some t)
+    (hj : (run (init progs) sched).threads[j]? = some u) (hij : i ≠ j) (ht : t.inWr = true) :
+    u.inRd = false ∧ u.inWr = false :=
+  flat_sections_exclusive progs (fun p hp => callSequence_flat p (h p hp)) sched i j t u hi hj hij ht
+
+/-- no modification is lost: with the token list as a value that every `read` event snapshots and
+every `write` event replaces by `upd i snapshot` (what goroutine `i` computed from the list as it
+saw it), under every schedule the list ends up as the modifications applied one after the other,
+in the order in which they were written -/
+theorem bundle_no_lost_update {σ} (upd : Nat → σ → σ) (s0 : σ) (progs : List (List Ev))
+    (h : ∀ p ∈ progs, IsCallSequence p) (sched : List Nat) :
+    (drun upd (init progs, ginit s0) sched).2.shared
+      = (drun upd (init progs, ginit s0) sched).2.log.foldl (fun s i => upd i s) s0 :=
+  flat_no_lost_update upd s0 progs (fun p hp => callSequence_flat p (h p hp))
+    (fun p hp => callSequence_rbw p (h p hp)) sched
+
+/-- tokens added concurrently are all present afterwards -/
+theorem bundle_added_tokens_all_present {τ} (x : Nat → List τ) (s0 : List τ) (progs : List (List Ev))
+    (h : ∀ p ∈ progs, IsCallSequence p) (sched : List Nat) :
+    (drun (fun i s => s ++ x i) (init progs, ginit s0) sched).2.shared
+      = s0 ++ ((drun (fun i s => s ++ x i) (init progs, ginit s0) sched).2.log.map x).flatten :=
+  flat_appends_all_present x s0 progs (fun p hp => callSequence_flat p (h p hp))
+    (fun p hp => callSequence_rbw p (h p hp)) sched
+
+/-- why the second obligation matters: a check-then-act writer (read under the read lock, write
+later under the write lock) loses the other goroutine's token -/
+def checkThenActProgs : List (List Ev) :=
+  [[.rlock, .read, .runlock, .lock, .write, .unlock], [.rlock, .read, .runlock, .lock, .write, .unlock]]
+theorem check_then_act_loses_an_update :
+    (drun (fun i s => s ++ [i]) (init checkThenActProgs, ginit ([] : List Nat))
+      [0, 0, 0, 1, 1, 1, 0, 0, 0, 0, 1, 1, 1, 1]).2.shared = [1] ∧
+    (drun (fun i s => s ++ [i]) (init checkThenActProgs, ginit ([] : List Nat))
+      [0, 0, 0, 1, 1, 1, 0, 0, 0, 0, 1, 1, 1, 1]).2.log = [0, 1] := by decide
+
+/-- non-vacuity: two goroutines adding tokens while a third filters, one concrete schedule -/
+example : (drun (fun i s => s ++ [i]) (init [[.lock, .read, .write, .unlock], [.lock, .read, .write, .unlock]], ginit ([] : List Nat))
+      [0, 1, 0, 0, 0, 0, 1, 1, 1, 1]).2.shared = [0, 1] := by decide
+
 /-- why flatness matters: a reader that re-acquires the read lock deadlocks with a writer that
 arrives in between (the schedule the search step hands to the stress runner) -/
 theorem nested_rlock_deadlocks : deadlocked (run (init nestedRLockProgs) nestedRLockWitness) = true := by decide
@@ -81,3 +141,9 @@ end Macaroon.Props.C15
 #print axioms Macaroon.Props.C15.bundle_race_free
 #print axioms Macaroon.Props.C15.bundle_all_return
 #print axioms Macaroon.Props.C15.nested_rlock_deadlocks
+#print axioms Macaroon.Props.C15.bundle_entry_points_read_before_write
+#print axioms Macaroon.Props.C15.callSequence_rbw
+#print axioms Macaroon.Props.C15.bundle_sections_exclusive
+#print axioms Macaroon.Props.C15.bundle_no_lost_update
+#print axioms Macaroon.Props.C15.bundle_added_tokens_all_present
+#print axioms Macaroon.Props.C15.check_then_act_loses_an_update
